@@ -45,6 +45,22 @@ CHECKS = {
     "C01": data(),
     "C05": admin(),
     "C06": admin(),
+    "C09": {
+        "level": "exploration",
+        "budget": {"quick": 40, "thorough": 600},
+        "min_histories": {"quick": 1000, "thorough": 100000},
+        "unit": "rule-layer (record x target) cases + system-layer histories",
+        "can_be_exhaustive": True,
+        "rule": ("(a) Rule layer: the real Permissioner is populated with a permission record and all 35 public rule functions are called for targets (1,2) and (1,1): "
+                 "records = 2^10 global flag sets x {no stream table, table with a foreign stream only, record for the stream with 2^6 flag sets x {no topic table, empty, foreign topic only, "
+                 "record for the topic with 2^4 flag sets}} = 1,247,232 records; thorough enumerates all of them (exhaustive: true), quick takes every record with <= 3 flags plus a seeded 1/12 sample. "
+                 "Oracles: no panic, allowed => granted by the documented hierarchy (most permissive reading), isolation from foreign stream/topic records, monotonicity under 20 single-flag supersets, "
+                 "no residue after update/delete, root allowed everything. (b) System layer histories over TCP/HTTP: unauthenticated and logged-out connections, HTTP routes without token, "
+                 "a user with sampled records performing every guarded operation on own/sibling/foreign targets with the real rule function as oracle, permission updates and user deletion on an open connection, root protection. "
+                 "evaluations = rule-layer cases + system histories; distinct_nontrivial = distinct record classes (table kind, topic-table kind, number of global flags) + distinct system histories."),
+        "assumptions": COMMON_ASSUMPTIONS + ["Soundness is checked in one direction only (performed => granted); a denial the docs would have allowed is counted as a note.",
+                                             "Commands that need no permission (get_me, logout, token management of the own user) are judged only on unauthenticated connections."],
+    },
     "C10": admin(extra_assumptions=["Token expiry is crossed with the hooked virtual clock; verdicts within 2 s of an expiry boundary are skipped.",
                                     "The secret scan looks for every password and raw token used in the history, as bytes and as base64, in every file under the data directory (the default root password 'iggy' equals the user name and is excluded)."]),
     "C02": data(),
@@ -97,9 +113,21 @@ MANIFEST_TEXT = {
     "C19": {"level_text": "Exploration with encryption on: lossless reads (model), byte search of every file under the data directory for message markers and journalled names, restart with another key / with encryption off, flipped ciphertext byte must surface as an error.",
             "design_ref": "DESIGN.md §4 C19", "level_note": _DATA_NOTE,
             "technique": "runtime monitoring: reference model + file-content scan + fault injection on stored ciphertext"},
+    "C05": {"level_text": "Exploration: histories of acknowledged catalogue commands over TCP and HTTP with 1-3 clean restarts; the normalised catalogue dump (ids, names, settings, partitions, groups, users, permissions, tokens, message scans, directories, logins) must be identical before and after each restart and equal to the reference catalogue.",
+            "design_ref": "DESIGN.md §4 C05", "level_note": _DATA_NOTE + " created_at fields and exact token expiry instants are excluded from the comparison (they are re-derived from journal timestamps).",
+            "technique": "runtime monitoring: before/after restart comparison of catalogue dumps + sequential reference catalogue"},
+    "C06": {"level_text": "Exploration: every catalogue command is judged by a sequential reference catalogue (valid => accepted, invalid => refused and a full dump unchanged), ids returned must be fresh, lookups by id and by name must agree, deletes must cascade to directories and client memberships, no server panic.",
+            "design_ref": "DESIGN.md §4 C06", "level_note": _DATA_NOTE,
+            "technique": "runtime monitoring: sequential reference catalogue with full read-back"},
+    "C09": {"level_text": "Rule layer: exhaustive (thorough) / sampled (quick) evaluation of the real permission rule functions over all permission records against the documented hierarchy, with isolation, monotonicity, no-residue and no-panic oracles; system layer: the handlers are observed over TCP/HTTP for unauthenticated, logged-out, deleted-user and permission-changed connections with the real rule functions as oracle.",
+            "design_ref": "DESIGN.md §4 C09", "level_note": "Trusted base: PermModel (the documented hierarchy in its most permissive reading, one direction: performed => granted); fixture entities with fixed ids 1..3.",
+            "technique": "runtime monitoring: exhaustive evaluation of pure rule functions + client-boundary observation of handlers"},
+    "C10": {"level_text": "Exploration: credential histories (users, status, passwords, tokens of root and non-root users, virtual-clock expiry, cleaner passes, restarts, TCP and HTTP) with login attempts from the full candidate set judged by a credential model; logout/JWT revocation checks; byte search of all data files for every password/token used.",
+            "design_ref": "DESIGN.md §4 C10", "level_note": _DATA_NOTE + " Hook H1 (clock offset).",
+            "technique": "runtime monitoring: credential reference model + file-content scan"},
 }
 
 NOT_APPLICABLE = [
     {"property_id": p, "reason": "check under construction in this framework (not yet claimed)"}
-    for p in ["C04", "C05", "C06", "C08", "C09", "C10", "C11", "C12", "C13", "C20"]
+    for p in ["C04", "C08", "C11", "C12", "C13", "C20"]
 ]
